@@ -30,7 +30,8 @@ EXTENDS Naturals, Sequences, FiniteSets, TLC
 
 CONSTANTS N, AsWas, Langs,
           SharedCache,   \* the rejected design: one process-wide cache of lazily compiled code
-          LazySet        \* values lazy[i] may take (the schedules written for replay use {FALSE}: there is no gate at the compile step)
+          LazySet,       \* values lazy[i] may take (the schedules written for replay use {FALSE}: there is no gate at the compile step)
+          FlagSet        \* values flag[i] may take (one value where the flag cannot matter, so that it does not multiply the schedules)
 
 VM == 1..N
 
@@ -58,7 +59,7 @@ Init == /\ pc = [i \in VM |-> "idle"]
         /\ usedLang = [i \in VM |-> "none"]
         /\ rng = 0 /\ held = [i \in VM |-> 0] /\ draws = [i \in VM |-> 0]
         /\ order = <<>>
-        /\ flag \in [VM -> {"on", "off"}] /\ lazy \in [VM -> LazySet]
+        /\ flag \in [VM -> FlagSet] /\ lazy \in [VM -> LazySet]
         /\ pcache = [i \in VM |-> "none"] /\ gcache = "none" /\ ranUnder = [i \in VM |-> "none"]
 
 Sched(i) == order' = Append(order, i)
